@@ -14,9 +14,21 @@ given by two tables (`pinLine`, `icLine`).  All theorems quantify over ALL block
   `Mode.lastWins` (the `dict(...)` of the current tree) keeps only the last block of a name
   (`lastWins_keeps_last_only`), so the full statement is FALSE for it (`none_lost_false_lastWins`,
   `none_lost_top_false_lastWins`) and only `none_lost_partial` (pairwise different block names) holds.
-* **Correspondence** (harness/c14.py, differential, not proof): the model — in the mode that a probe of the real
-  `sdf.parse` selects — against the real `sdf.parse(text).iopaths/.interconnects` on generated circuits and SDF texts;
-  the grammar/lexer, `float`, NumPy assignment and the Verilog reader are exercised there, not modelled.
+* **Theorem, text level** (section `text`, model `KV.SdfText` in Model/SdfText.lean = the grammar of `sdf.py` read as lark reads
+  it: contextual scanner with the per-state terminal order of the real `Lark` object, keywords as prefixes, `ID` /
+  `ID_OR_EDGE` tried before the ignored terminals, `_NOB`, balanced TIMINGCHECK skip; then `SdfFile.ok` = what
+  `SdfTransformer` raises on): `sdf_text_roundtrip` — `parseSdf (printSdf f) = some f` for every tree with valid name
+  tokens and number fields (`SdfFile.valid`); `sdf_text_roundtrip_tree` (grammar alone), `sdf_text_valid_ok`.
+  `SdfFile.toRaw` hands the tree to the block list the theorems above are about.
+* **Correspondence** (harness/c14.py, differential, not proof): (a) text level: the model reader (driver `sdfparse`) against the
+  real lark grammar (parse tree, token texts verbatim) and the real `sdf.parse` (accept / raise) on every generated text, on
+  hand-written corner cases and on mutated texts (one or two edits: character deleted / inserted / replaced, fragment
+  inserted); the generated text must read back as the generator's block list; for accepted mutants the delay arrays of the
+  post-parse model fed with the MODEL's block list equal the real arrays; (b) the post-parse model — in the mode that a probe
+  of the real `sdf.parse` selects — against the real `sdf.parse(text).iopaths/.interconnects` on generated circuits and texts.
+  What remains trusted at the text level: that lark implements the grammar as the hand-written reader does (LALR tables,
+  `re` semantics of the terminals) — checked by (a), not proved; `float`, NumPy assignment and the Verilog reader are
+  exercised, not modelled.
 * **Oracle** (harness/c14.py): the generator's ground-truth array (it placed every value itself) against the real
   result; this, not the model, decides violations. -/
 namespace KV.C14
